@@ -185,3 +185,98 @@ def check_C19run(tier):
 def check_C09(tier):
     return run_level_check("C09", tier, ["core_det", "core_noisy", "cons", "steer"], level="exploration",
                            design_cfgs=("BadsRun.cfg",))
+
+
+# ---------------------------------------------------------------------------
+# C10: fault enumeration over the position of the failing target call
+# ---------------------------------------------------------------------------
+VAL_FAULTS = ["exception", "nan", "inf", "-inf", "complex", "vector", "none"]
+SPEC_FAULTS = ["exception", "pair_nan", "pair_inf", "not_pair", "triple", "sd_zero", "sd_neg",
+               "sd_nan", "sd_inf", "none"]
+
+
+def _c10_bases():
+    from . import scenarios as S
+    out = []
+    box = S.box_geom(2, x0=[2.0, -3.0])
+    tq = {"family": "quad", "min": [0.5, 1.0], "eig": [1.0, 4.0], "rot_seed": 5}
+    out.append({"id": "f_det", "D": 2, "geom": box, "target": tq, "noise": {"mode": "det"}, "cons": None,
+                "options": {"max_fun_evals": 45}, "seed": 11, "tags": ["c10base"]})
+    for mode in ("auto", "declared", "specified"):
+        out.append({"id": "f_" + mode, "D": 2, "geom": box, "target": tq,
+                    "noise": {"mode": mode, "sigma": 0.5, "sd_kind": "hetero" if mode == "specified" else "const"},
+                    "cons": None, "options": {"max_fun_evals": 62, "noise_final_samples": 3}, "seed": 12,
+                    "tags": ["c10base", mode]})
+    out.append({"id": "f_detcons", "D": 2, "geom": S.box_geom(2, -5, 5, -3, 3, x0=[0.5, 0.5]), "target": tq,
+                "noise": {"mode": "det"}, "cons": {"family": "halfspace", "w": [1.0, 1.0], "b": 2.0},
+                "options": {"max_fun_evals": 40}, "seed": 13, "tags": ["c10base", "cons"]})
+    return out
+
+
+def check_C10(tier):
+    import copy
+    bases = _c10_bases()
+    ref = run_panel(bases, name=f"c10ref-{tier}")
+    scs = []
+    positions_by_kind = {}
+    for bi, b in enumerate(bases):
+        kinds = [(e["n"], e["kind"]) for e in ref["events"][bi] if e["e"] == "Eval" and e["outcome"] == "ok"]
+        if any(c for c in ref["verdicts"][bi] if c[0].startswith("C09")):
+            raise MachineryError("C10 reference run did not complete: %s" % ref["verdicts"][bi])
+        bykind = {}
+        for n, k in kinds:
+            bykind.setdefault(k, []).append(n)
+        faults = SPEC_FAULTS if b["noise"]["mode"] == "specified" else VAL_FAULTS
+        for k, ns in bykind.items():
+            if tier == "quick":
+                pick = sorted({ns[0], ns[len(ns) // 2], ns[-1]})
+                if b["id"] in ("f_detcons",):
+                    pick = pick[:1]
+            else:
+                pick = ns
+            for n in pick:
+                for fk in (faults if (tier == "thorough" or b["id"] != "f_detcons") else faults[:3]):
+                    sc = copy.deepcopy(b)
+                    sc["id"] = f"{b['id']}_k{n}_{fk}"
+                    sc["faults"] = {"target": {str(n): fk}}
+                    sc["tags"] = ["fault", k, fk, b["noise"]["mode"]]
+                    scs.append(sc)
+                    positions_by_kind[(b["noise"]["mode"], k)] = positions_by_kind.get((b["noise"]["mode"], k), 0) + 1
+
+    def post(v, results):
+        v.coverage["fault_positions_by_mode_and_kind"] = {f"{m}/{k}": c for (m, k), c in sorted(positions_by_kind.items())}
+        v.coverage["fault_kinds"] = {"value_modes": VAL_FAULTS, "specified": SPEC_FAULTS}
+        v.coverage["exhaustive"] = tier == "thorough"
+    v = run_level_check("C10", tier, [], level="fault_enumeration", design_cfgs=("BadsRun.cfg",),
+                        extra_panels=[("c10ref", bases), ("c10faults", scs)], post=post)
+    v.coverage["rule"] = ("fault injected at call index k of a reference run for every position kind "
+                          "(x0, noise test, initial design, search, poll, final re-sampling) x every fault kind x noise mode; "
+                          "quick: first/middle/last position of each kind, thorough: every k; "
+                          "distinct = distinct (spec actions exercised, tags)")
+    return v
+
+
+def check_C14run(tier):
+    return run_level_check("C14", tier, ["core_det", "core_noisy"], design_cfgs=())
+
+
+def check_C15(tier):
+    return run_level_check("C15", tier, ["core_det", "core_noisy", "cons"], design_cfgs=())
+
+
+def check_C17run(tier):
+    return run_level_check("C17", tier, ["core_det", "core_noisy", "cons"], design_cfgs=())
+
+
+def check_C18run(tier):
+    return run_level_check("C18", tier, ["core_det", "core_noisy", "cons", "steer"], design_cfgs=("BadsRun.cfg",))
+
+
+def check_C14(tier):
+    from . import comp_polldirs
+    v = check_C14run(tier)
+    st, cases = comp_polldirs.run(v, tier)
+    v.coverage["states"] += st
+    v.coverage["transitions"] += cases
+    v.coverage["exhaustive_component"] = "every outcome of the generator's random choices for D<=3, n in {1,2,4}"
+    return v
